@@ -979,6 +979,9 @@ class AgentSchedulingComponent(rpu.AgentComponent):
                 # tasks being scheduled onto the same set of resources.
                 if td.get('slots'):
 
+                    self._change_slot_states(td['slots'], rpc.BUSY)
+                    self._active_cnt += 1
+
                     task['slots']     = td['slots']
                     task['partition'] = td['partition']
                     task['resources'] = {'cpu': td['ranks'] * td['cores_per_rank'],
